@@ -289,3 +289,31 @@ func TestC08Regress(t *testing.T) {
 		runC08(t, c)
 	}
 }
+
+// TestC08EnumScale: thousands of sessions left waiting for their continuation on one connection; then
+// follow-ups for a sample of them (each must reach that session's own continuation), new sessions in
+// between, and at the end the replay of a used number in a session that is still waiting.
+func TestC08EnumScale(t *testing.T) {
+	n := scaleN()
+	var c c08Case
+	for i := 0; i < n; i++ {
+		c.Steps = append(c.Steps, c08Step{Session: uint32(0x100 + i), Seq: 1, Type: byte(1 + i%3), Reply: true, Cont: true})
+	}
+	sample := []int{0, 1, n / 2, n - 2, n - 1}
+	for k := 4; 1<<k < n; k++ {
+		sample = append(sample, 1<<k-1, 1<<k, 1<<k+1)
+	}
+	for j, i := range sample {
+		// continue (and keep waiting), then finish; every third one skips ahead
+		seq := byte(3 + 2*(j%3))
+		c.Steps = append(c.Steps, c08Step{Session: uint32(0x100 + i), Seq: seq, Type: 1, Reply: true, Cont: true})
+		c.Steps = append(c.Steps, c08Step{Session: uint32(0x100 + i), Seq: seq + 2, Type: 1, Reply: true, Cont: false})
+		// the id is free again
+		c.Steps = append(c.Steps, c08Step{Session: uint32(0x100 + i), Seq: 1, Type: 1, Reply: true, Cont: j%2 == 0})
+	}
+	c.Steps = append(c.Steps, c08Step{Session: uint32(0x100 + n/3), Seq: 1, Type: 1, Reply: true, Cont: false}) // replay
+	c.Steps = append(c.Steps, c08Step{Session: uint32(0x100 + n/3), Seq: 3, Type: 1, Reply: true, Cont: false}) // after termination
+	runC08(t, c)
+	classifyC08(c)
+	ev.Class(fmt.Sprintf("scale:%d-sessions-waiting-on-one-connection", n))
+}
